@@ -76,6 +76,12 @@ impl AuthKey {
     pub fn as_key_type(&mut self, alg: u8, key: &[u8], engine_id: &[u8]) -> SnmpResult<()> {
         if self.has_auth() {
             match alg & KT_TYPE_MASK {
+                // An empty password cannot be stretched
+                KT_PASSWORD if key.is_empty() => return Err(SnmpError::InvalidKey),
+                // Master and localized keys have the size of the digest
+                KT_MASTER | KT_LOCALIZED if key.len() != self.get_key_size() => {
+                    return Err(SnmpError::InvalidKey);
+                }
                 KT_PASSWORD => self.as_password(key, engine_id),
                 KT_MASTER => self.as_master(key, engine_id),
                 KT_LOCALIZED => self.as_localized(key),
